@@ -13,7 +13,7 @@ import (
 
 func init() {
 	register(&Property{ID: "C06", Run: runC06, Meta: report.Meta{ID: "C06",
-		Explanation: "DECIDED (for all grammars and inputs at once) — the part no test looks at, that no combinator loses a failure: R06a for each of the nested parser calls, its error (i) enters the combinator's accumulator / result only under conditions built from the error itself, the accumulator, positions and IsNotFoundError (max-selection and the own-start filter) — never under an unrelated condition such as the presence of a node; (ii) reaches a returned error or a Context.SetError call; (iii) where a combinator accumulates errors over several calls, every successful return is preceded by SetError of a value that includes the accumulated error (not just the last call's). R06b the position of every error the library creates is its own position parameter, a position handed out by the Reader, or the position of an existing error/node — never integer arithmetic. With C09 (reader positions stay inside the file) every reported position is one at which the reader was consulted. NOT DECIDED: that the reported position EQUALS the maximum over all failed attempts; which expectation text wins; line:column rendering (C11). The routing through FileSet.ErrorWithPosition and the message formats are pinned by unit tests and not re-checked.",
+		Explanation: "DECIDED (for all grammars and inputs at once) — the part no test looks at, that no combinator loses a failure: R06a for each of the nested parser calls, its error (i) enters the combinator's accumulator / result only under conditions built from the error itself, the accumulator, positions and IsNotFoundError (max-selection and the own-start filter) — never under an unrelated condition such as the presence of a node; (ii) reaches a returned error or a Context.SetError call; (iii) where a combinator accumulates errors over several calls, every successful return is preceded by SetError of a value that includes the accumulated error (not just the last call's). R06b the position of every error the library creates is its own position parameter, a position handed out by the Reader, or the position of an existing error/node — never integer arithmetic. With C09 (reader positions stay inside the file) every reported position is one at which the reader was consulted. R06c an accumulated error is replaced only by one that is not before it. R06d the line table gets index+1 exactly for every byte 0x0A of the content and under no other condition (byte-loop shape; other shapes are not decided), so the rendered line:column of a position after a trailing line feed is right. NOT DECIDED: that the reported position EQUALS the maximum over all failed attempts; which expectation text wins; line:column rendering (C11). The routing through FileSet.ErrorWithPosition and the message formats are pinned by unit tests and not re-checked.",
 		Assumptions: commonAssumptions, TrustedBase: commonTrusted}})
 }
 
